@@ -365,6 +365,10 @@ func (s *pState) render(cw *cwriter.Writer) (err error) {
 func (s *pState) flush(cw *cwriter.Writer, height int, iter <-chan *Bar) error {
 	var popCount int
 	var rows []io.Reader
+	// bars are pushed back only after iter has been drained, i.e. when the
+	// heap manager is ready to receive again, so that a push is never
+	// overtaken by a later request.
+	var pushBack []pushData
 
 	for b := range iter {
 		frame := <-b.frameCh
@@ -389,13 +393,13 @@ func (s *pState) flush(cw *cwriter.Writer, height int, iter <-chan *Bar) error {
 			if qb, ok := s.queueBars[b]; ok {
 				delete(s.queueBars, b)
 				qb.priority = b.priority
-				s.hm.push(qb, true)
+				pushBack = append(pushBack, pushData{qb, true})
 			} else if s.popCompleted && !frame.noPop {
 				b.priority = s.popPriority
 				s.popPriority++
-				s.hm.push(b, false)
+				pushBack = append(pushBack, pushData{b, false})
 			} else if !frame.rmOnComplete {
-				s.hm.push(b, false)
+				pushBack = append(pushBack, pushData{b, false})
 			}
 		case 2:
 			if s.popCompleted && !frame.noPop {
@@ -404,8 +408,12 @@ func (s *pState) flush(cw *cwriter.Writer, height int, iter <-chan *Bar) error {
 			}
 			fallthrough
 		default:
-			s.hm.push(b, false)
+			pushBack = append(pushBack, pushData{b, false})
 		}
+	}
+
+	for _, data := range pushBack {
+		s.hm.push(data.bar, data.sync)
 	}
 
 	for i := len(rows) - 1; i >= 0; i-- {
